@@ -32,8 +32,10 @@ SIBLINGS = {
     'record_hit': 'record_miss', 'record_miss': 'record_hit', 'read': 'write', 'fetch_add': 'fetch_sub',
     'saturating_add': 'saturating_sub', 'saturating_sub': 'saturating_add', 'min': 'max', 'max': 'min',
     'contains_key': 'is_empty', 'is_some': 'is_none', 'is_none': 'is_some',
+    'insert_with_memory': 'insert', 'insert_result': 'insert', 'insert_result_with_memory': 'insert_with_memory',
+    'register_callback': 'register_invalidation_callback', 'register_invalidation_callback': 'register_callback',
 }
-EFFECTFUL = ('insert', 'remove', 'clear', 'retain', 'push_back', 'push_front', 'pop_front', 'pop_back', 'record_hit', 'record_miss', 'increment_frequency',
+EFFECTFUL = ('insert_result', 'insert_with_memory', 'insert_result_with_memory', 'register', 'register_callback', 'register_invalidation_callback', 'call_once', 'insert', 'remove', 'clear', 'retain', 'push_back', 'push_front', 'pop_front', 'pop_back', 'record_hit', 'record_miss', 'increment_frequency',
              'fetch_add', 'store', 'swap_remove_back', 'truncate', 'extend')
 MODULES = ('global_cache', 'thread_local_cache', 'async_global_cache', 'utils', 'cache_entry', 'invalidation', 'stats', 'stats_registry', 'keys',
            'memory_estimator', 'eviction_policy')
@@ -51,10 +53,52 @@ def in_scope(body):
     return any(('cachelito_core::%s::' % m) in nm for m in MODULES)
 
 
-def enumerate_sites(ctx, only=None):
+def _consts_in(rv, path=()):
+    """[(path, const dict)] of the constant operands inside an rvalue JSON"""
     out = []
-    for body in sorted(ctx.core.bodies.values(), key=lambda b: b.id):
-        if not in_scope(body) or (only and only not in body.name):
+    if isinstance(rv, dict):
+        if 'const' in rv and isinstance(rv['const'], dict):
+            out.append((path, rv['const']))
+        else:
+            for k, v in rv.items():
+                out += _consts_in(v, path + (k,))
+    elif isinstance(rv, list):
+        for i, v in enumerate(rv):
+            out += _consts_in(v, path + (i,))
+    return out
+
+
+def generated_bodies(ctx):
+    """bodies of a few feature-rich fixture functions (per flavour the one with most attributes, and one plain Result function)
+    with everything the macro generated inside them, user bodies excepted"""
+    exp = ctx.expect
+
+    def score(v):
+        return sum(1 for k in ('limit', 'ttl', 'max_memory', 'cache_if', 'invalidate_on') if v.get(k) is not None) + sum(1 for k in ('tags', 'events', 'dependencies') if v.get(k))
+    picks = {}
+    for name, v in sorted(exp.items()):
+        k1 = (v['scope'], 'rich')
+        if k1 not in picks or score(v) > score(exp[picks[k1]]):
+            picks[k1] = name
+        if v['ret'].startswith('Result<') and score(v) == 0 and (v['scope'], 'result') not in picks:
+            picks[(v['scope'], 'result')] = name
+    out = []
+    for name in sorted(set(picks.values())):
+        unit = name.split('::')[0]
+        cr = ctx.crate(unit)
+        for b in cr.named(name):
+            for x in [b] + cr.descendants(b):
+                role = ctx.role(x)
+                if role:
+                    out.append((unit, x))  # includes the user-body closure: its alterations are triaged as out of scope
+    return out
+
+
+def enumerate_sites(ctx, only=None, generated=False):
+    out = []
+    pool = generated_bodies(ctx) if generated else [('cachelito_core', b) for b in sorted(ctx.core.bodies.values(), key=lambda b: b.id)]
+    for unit, body in pool:
+        if (not generated and not in_scope(body)) or (only and only not in body.name):
             continue
         for bi, bl in enumerate(body.blocks):
             if bl['cleanup']:
@@ -63,10 +107,16 @@ def enumerate_sites(ctx, only=None):
                 if st['k'] == 'assign' and 'bin' in st['rv']:
                     op = st['rv']['bin']
                     if op in CMP:
-                        out.append((body.id, 'cmp-strict', bi, si, op, CMP[op]))
-                        out.append((body.id, 'cmp-reverse', bi, si, op, REV[op]))
+                        out.append((body.id, 'cmp-strict', bi, si, op, CMP[op], unit))
+                        out.append((body.id, 'cmp-reverse', bi, si, op, REV[op], unit))
                     elif op in EQ:
-                        out.append((body.id, 'eq-negate', bi, si, op, EQ[op]))
+                        out.append((body.id, 'eq-negate', bi, si, op, EQ[op], unit))
+                if st['k'] == 'assign':
+                    for path, c in _consts_in(st['rv']):
+                        if isinstance(c.get('int'), int) and not isinstance(c.get('int'), bool) and 0 <= c['int'] <= 4096 and 'bool' not in (c.get('ty') or ''):
+                            out.append((body.id, 'stmt-const-bump', bi, (si, path), c['int'], c['int'] + 1, unit))
+                        elif isinstance(c.get('str'), str):
+                            out.append((body.id, 'stmt-str-bump', bi, (si, path), c['str'], c['str'] + '~', unit))
             t = bl['term']
             if t['k'] == 'switch' and len(t['targets']) == 1 and t.get('otherwise') is not None:
                 # only tests of a bool: swapping the arms of `if let Some(x)` / `match` would use a payload that is not there
@@ -78,21 +128,27 @@ def enumerate_sites(ctx, only=None):
                         if d[0] == 'stmt' and 'discr' in d[3]:
                             is_discr = True
                 if not is_discr:
-                    out.append((body.id, 'switch-swap', bi, None, None, None))
+                    out.append((body.id, 'switch-swap', bi, None, None, None, unit))
             if t['k'] == 'call':
                 short = callee_name(t).rsplit('::', 1)[-1]
                 if short in SIBLINGS:
-                    out.append((body.id, 'call-sibling', bi, None, short, SIBLINGS[short]))
+                    out.append((body.id, 'call-sibling', bi, None, short, SIBLINGS[short], unit))
+                full = callee_name(t)
+                if generated and t.get('target') is not None and short not in EFFECTFUL and (full.startswith('cachelito_core::') or full.startswith('fx_')) \
+                        and short not in ('new', 'to_cache_key', 'global'):
+                    out.append((body.id, 'call-drop', bi, None, short, None, unit))
                 if short in EFFECTFUL and t.get('target') is not None:
-                    out.append((body.id, 'call-drop', bi, None, short, None))
+                    out.append((body.id, 'call-drop', bi, None, short, None, unit))
                 for ai, a in enumerate(t['args']):
+                    if 'const' in a and isinstance(a['const'].get('str'), str):
+                        out.append((body.id, 'arg-str-bump', bi, ai, a['const']['str'], a['const']['str'] + '~', unit))
                     if 'const' in a and isinstance(a['const'].get('int'), int) and a['const']['int'] in (0, 1):
-                        out.append((body.id, 'const-bump', bi, ai, a['const']['int'], a['const']['int'] + 1))
+                        out.append((body.id, 'const-bump', bi, ai, a['const']['int'], a['const']['int'] + 1, unit))
     return out
 
 
 def apply_site(ctx, site):
-    bid, kind, bi, x, old, new = site
+    bid, kind, bi, x, old, new, unit = site
 
     def edit(js):
         bl = js['blocks'][bi]
@@ -116,7 +172,17 @@ def apply_site(ctx, site):
             bl['term'] = {'k': 'goto', 'target': t['target'], 'span': t.get('span')}
         elif kind == 'const-bump':
             bl['term']['args'][x]['const']['int'] = new
-    return P._ctx_with_core(ctx, P._clone_core(ctx, bid, edit))
+        elif kind == 'arg-str-bump':
+            bl['term']['args'][x]['const']['str'] = new
+        elif kind in ('stmt-const-bump', 'stmt-str-bump'):
+            si, path = x
+            o = bl['stmts'][si]['rv']
+            for k in path:
+                o = o[k]
+            o['const']['int' if kind == 'stmt-const-bump' else 'str'] = new
+    if unit == 'cachelito_core':
+        return P._ctx_with_core(ctx, P._clone_core(ctx, bid, edit))
+    return P._ctx_with_crate(ctx, unit, P._clone_crate(ctx, unit, bid, edit))
 
 
 def run_one(site):
@@ -154,7 +220,8 @@ def main():
     CTX.prog
     CTX.fx_sync
     CTX.fx_async
-    sites = enumerate_sites(CTX, only)
+    generated = '--generated' in sys.argv
+    sites = enumerate_sites(CTX, only, generated)
     print('%d alterations over %d bodies' % (len(sites), len({s[0] for s in sites})), flush=True)
     outp = os.path.join(HERE, 'notes', 'fact_audit.jsonl')
     for i, a in enumerate(sys.argv):
@@ -163,11 +230,13 @@ def main():
     surv = 0
     with Pool(jobs) as pool, open(outp, 'w') as f:
         for site, res, secs in pool.imap_unordered(run_one, sites, chunksize=1):
-            body = CTX.core.bodies[site[0]]
+            body = CTX.crate(site[6]).bodies[site[0]]
             span = None
             bl = body.blocks[site[2]]
             if site[1] in ('cmp-strict', 'cmp-reverse', 'eq-negate'):
                 span = bl['stmts'][site[3]].get('span')
+            elif site[1] in ('stmt-const-bump', 'stmt-str-bump'):
+                span = bl['stmts'][site[3][0]].get('span')
             else:
                 span = bl['term'].get('span')
             row = {'body': body.name, 'kind': site[1], 'block': site[2], 'old': site[4], 'new': site[5], 'span': span, 'secs': secs}
